@@ -24,13 +24,44 @@ type rule struct {
 	kind, name, expr, forv string
 	labels, anns           [][2]string
 	comments               []string // rule-level pint comments (own lines above the rule)
+	trailing               []string // rule-level pint comments trailing on the rule's first line
+	flow                   bool     // written as one flow mapping `- {record: ..., expr: ...}` (base variant 2, seed C03_4)
 	plainAbove, blankAbove int
+}
+
+func sq(s string) string { return "'" + strings.ReplaceAll(s, "'", "''") + "'" }
+
+func (r rule) trail() string {
+	if len(r.trailing) == 0 {
+		return ""
+	}
+	return " # pint " + strings.Join(r.trailing, " # pint ")
+}
+
+func (r rule) renderFlow(key string) string {
+	parts := []string{key + ": " + sq(r.name), "expr: " + sq(r.expr)}
+	if r.forv != "" {
+		parts = append(parts, "for: "+r.forv)
+	}
+	for _, m := range []struct {
+		k   string
+		kvs [][2]string
+	}{{"labels", r.labels}, {"annotations", r.anns}} {
+		if len(m.kvs) > 0 {
+			var kv []string
+			for _, x := range m.kvs {
+				kv = append(kv, x[0]+": "+sq(x[1]))
+			}
+			parts = append(parts, m.k+": {"+strings.Join(kv, ", ")+"}")
+		}
+	}
+	return "  - {" + strings.Join(parts, ", ") + "}" + r.trail() + "\n"
 }
 
 func (r rule) record(fileDisables []string) string {
 	fd := append([]string(nil), fileDisables...)
 	sort.Strings(fd)
-	cm := append([]string(nil), r.comments...)
+	cm := append(append([]string(nil), r.comments...), r.trailing...)
 	sort.Strings(cm)
 	return fmt.Sprintf("%s|%s|%s|%s|%v|%v|%v|%v", r.kind, r.name, r.expr, r.forv, r.labels, r.anns, cm, fd)
 }
@@ -67,7 +98,11 @@ func (f file) render() string {
 		if r.kind == "alerting" {
 			key = "alert"
 		}
-		fmt.Fprintf(&sb, "  - %s: %s\n    expr: %s\n", key, r.name, r.expr)
+		if r.flow {
+			sb.WriteString(r.renderFlow(key))
+			continue
+		}
+		fmt.Fprintf(&sb, "  - %s: %s%s\n    expr: %s\n", key, r.name, r.trail(), r.expr)
 		if r.forv != "" {
 			fmt.Fprintf(&sb, "    for: %s\n", r.forv)
 		}
@@ -103,6 +138,7 @@ func (t tree) clone() tree {
 			nr.labels = append([][2]string(nil), r.labels...)
 			nr.anns = append([][2]string(nil), r.anns...)
 			nr.comments = append([]string(nil), r.comments...)
+			nr.trailing = append([]string(nil), r.trailing...)
 			nf.rules = append(nf.rules, nr)
 		}
 		n.files = append(n.files, nf)
@@ -116,6 +152,10 @@ func baseTree(variant int) tree {
 	t := baseTree0()
 	if variant == 1 {
 		t.files[1].rules = append(t.files[1].rules, t.clone().files[1].rules[0])
+	}
+	if variant == 2 { // first rule of a.yml in flow style below a plain comment (b.yml stays in block style: a short
+		// file whose only rule is one flow line falls below git's rename similarity when that line is edited)
+		t.files[0].rules[0].flow, t.files[0].rules[0].plainAbove = true, 1
 	}
 	return t
 }
@@ -257,6 +297,7 @@ func ops() []op {
 			out = append(out, ruleOp(fi, ri, "plain comment above", func(r *rule) { r.plainAbove++ }))
 			out = append(out, ruleOp(fi, ri, "blank line above", func(r *rule) { r.blankAbove++ }))
 		}
+		out = append(out, ruleOp(fi, 0, "add trailing pint disable comment", func(r *rule) { r.trailing = append(r.trailing, "disable promql/rate") }))
 		out = append(out, ruleOp(fi, 0, "change annotation", func(r *rule) {
 			if len(r.anns) > 0 {
 				r.anns[0][1] += " now"
@@ -335,7 +376,7 @@ func writeTree(r *gitrepo.Repo, prev, cur tree) {
 
 func body(c *explore.Chooser) *explore.Case {
 	depth := 1 + c.Free(maxDepth, "depth")
-	variant := c.Free(2, "base")
+	variant := c.Free(3, "base")
 	base := baseTree(variant)
 	cur := base.clone()
 	history := []tree{cur.clone()}
